@@ -151,6 +151,9 @@ def specC01 (p : Params) (o : Obs) : Option String :=
   else if !p.ss && (incSent tr).length > 1 then some "unary-response-multi"
   else if !o.kept then some "message-mutated-after-send"
   else if clientClosed tr && outSent tr ≠ incReceived tr then some "request-dropped-before-halfclose"
+  -- C01_halfclose_unary applied to the observed trace: a unary-request method is half-closed by Forward itself,
+  -- before it starts to read responses (the outgoing stream is a client stream: gRPC never does it on its own)
+  else if !p.cs && readsResponses tr && !closeSendCalled tr then some "half-close-not-propagated"
   else match returnedOf tr with
     | none => none
     | some e =>
@@ -243,6 +246,9 @@ def judgeE2E (op : String) (fs : List String) (out : List String) : String :=
           else if k.endsWith "treq" && dupCalls then "request-duplicated"
           else if k.endsWith "status" && dupCalls then "status-replaced"
           else if k.endsWith "gor" then "goroutine-left"
+          -- the target received the request(s) but never the end of the request stream (so it never answered)
+          else if got.any (fun kv => kv.1.endsWith "half" && kv.2 = "0") && want.any (fun kv => kv.1.endsWith "half" && kv.2 = "1")
+                  && want.all (fun kv => !kv.1.endsWith "treq" || !mism kv) then "half-close-not-propagated"
           else ""
         s!"VIOL {op} {why} {k} want={v.take 40} got={g}"
       | none =>
